@@ -1,0 +1,16 @@
+//go:build verif && unix
+
+package term
+
+import "time"
+
+// VerifByteReader is the byte source readEvent consumes.
+type VerifByteReader interface {
+	ReadByteWithTimeout(timeout time.Duration) (byte, error)
+}
+
+// VerifReadEvent exposes readEvent with an injectable byte reader.
+func VerifReadEvent(rd VerifByteReader) (Event, error) { return readEvent(rd) }
+
+// VerifErrTimeout is the error a reader returns when a timed read expires.
+var VerifErrTimeout = errTimeout
